@@ -115,11 +115,15 @@ CLAIMED = {
         "DESIGN.md §7 C13",
     ),
     "C10": (
-        "Lean 4 round-trip theorems for text (five-pass unescape over the extracted escape table, block induction), strings (single pass, both quotes), integers, booleans + differential test: generated trees printed in 24 styles and parsed by the real ANTLR parser, lexer-error audit of accepted strings, verbatim CLI output",
+        "Lean 4 round-trip theorems for text (five-pass unescape over the extracted escape table, block induction), strings (single pass, both quotes), integers, booleans, and end-to-end (lexer+parser) round trips for raw text and for a string argument + differential test: generated trees printed in 24 styles and parsed by the real ANTLR parser, lexer-error audit of accepted strings, verbatim CLI output",
         "Proved in Lean over the escape table re-extracted from parser.py each run: unescape(escText s) = s for every "
         "text not ending in a backslash (and a witness that the condition is needed), unescape_string(escStr q s) = s "
         "for every string and both quotes, int literals up to the conversion limit, both boolean spellings, any print "
-        "style. The tree-level print/parse round trip is checked by correspondence (not yet a theorem): 30 000 "
+        "style; and through the model of the whole front end (three-mode maximal-munch lexer + parser): every non-empty "
+        "raw text without % and TAB/LF/CR that does not end in a backslash is lexed as one TEXT token and parses back to "
+        "itself (parse_print_text), and %T(<literal>) with any string not ending in a backslash and either quote mark "
+        "parses to a tag with exactly that string as argument (parse_print_string_arg: the closing quote is the first "
+        "unprotected one). The round trip for arbitrary TREES is checked by correspondence (not a theorem): 30 000 "
         "generated trees per run are printed by the model's printer and by an independent Python printer, parsed by "
         "the real parser and by the model, and compared with the tree; accepted strings are re-lexed with a collecting "
         "listener (nothing dropped); CLI runs check that text+argument reach the generated name verbatim.",
@@ -131,8 +135,10 @@ CLAIMED = {
         "Lean 4 theorems on the visitor's pipe fold (= nested contexts, for every X and any number of tags) and rejection of non-tags after a pipe + differential test of pipe/nested spellings on the real parser and renderer",
         "Proved in Lean: the pipe fold of the visitor builds exactly the nested-context tree for every X and every "
         "number of piped tags; each piped tag's only context is everything before it; a pipe not followed by a tag "
-        "makes the pattern unparsable at any level. That the token stream of `X|%A|%B` reaches the fold as (X, [A, B]) "
-        "is tied by correspondence: 20 000 generated (X, 1-5 tags, arguments) pairs per run are printed in both "
+        "makes the pattern unparsable at any level; and on the template TEXT, through the model of the whole front end "
+        "(pipe_eq_nested_text): for every raw text x the grammar can carry, `x|%T()` and `%T(){x}` both parse to the one "
+        "tree whose tag has exactly x as context. For arbitrary X and argument lists, that the token stream of "
+        "`X|%A|%B` reaches the fold as (X, [A, B]) is tied by correspondence: 20 000 generated (X, 1-5 tags, arguments) pairs per run are printed in both "
         "spellings, at top level and inside a context, parsed by the real parser and by the model (equal trees), and "
         "rendered through the real compiler with the built-in text tags (equal names).",
         "Trusted: Lean kernel; ANTLR runtime/generated parser (modelled, tied by correspondence).",
